@@ -171,18 +171,8 @@ var confinedTypes = map[string]string{
 // table only so that the lemma about the remaining locations still compiles.  The report lists
 // them under "FINDING"; gen_findings in Locks.v counts them.
 var lockAllow = map[string]string{
-	"replication.ReplicaSession.Connected": "FINDING data race: written under ReplicaSession.mu only (sendLoop primary.go:135, send primary.go:108, " +
-		"sendToReplica primary.go:625, checkSessions heartbeat.go:126/148) and under Primary.mu only (Close primary.go:945); read WITHOUT the session mutex by " +
-		"broadcastToReplicas primary.go:545 and sendToReplica primary.go:563 (client write path: Primary.mu shared + WAL.mu), checkSessions heartbeat.go:116 " +
-		"(no lock at all), GetReplicaInfo primary_info.go:14, getPrimaryStatus manager.go:200, getSessionIDFromContext primary.go:832, " +
-		"maybeManageWALRetention primary.go:891 (Primary.mu shared)",
-	"replication.ReplicaSession.Active": "FINDING data race: same pattern as Connected; written under ReplicaSession.mu only (send primary.go:109, checkSessions " +
-		"heartbeat.go:127/149), read without it by broadcastToReplicas primary.go:545, sendToReplica primary.go:563, checkSessions heartbeat.go:116, " +
-		"GetReplicaInfo primary_info.go:21, getPrimaryStatus manager.go:203/211, maybeManageWALRetention primary.go:891",
-	"replication.ReplicaSession.LastAckSequence": "FINDING data race: written by updateSessionAck primary.go:862 (Acknowledge handler; Primary.mu and ReplicaSession.mu " +
-		"exclusive), read with NO lock by the StreamWAL handler's ticker loop primary.go:379/381 (another goroutine of the same session)",
-	"replication.ReplicaSession.LastActivity": "FINDING data race (a three-word time.Time): written under ReplicaSession.mu only by the session's sender goroutine " +
-		"(sendLoop primary.go:141), read under Primary.mu shared only by Manager.Status -> getPrimaryStatus manager.go:212/216",
+	// (empty since /repo fe6e3ed: the four ReplicaSession fields Connected, Active, LastAckSequence and
+	// LastActivity, first listed here as FINDING entries, are read under the session mutex now)
 }
 
 // ---------------------------------------------------------------------------------------
